@@ -18,7 +18,10 @@ PROPS = {
     },
     "C02": {
         "title": "solar<->lunar conversion is a bijection that preserves order",
-        "mc": {"quick": [{"module": "MC_DayClock", "cfg": "MC_DayClock.cfg", "workers": 6}]},
+        "mc": {"quick": [{"module": "MC_DayClock", "cfg": "MC_DayClock.cfg", "workers": 6},
+                         {"module": "MC_LunarLookup", "cfg": "MC_LunarLookup.cfg", "workers": 4}],
+               "thorough": [{"module": "MC_DayClock", "cfg": "MC_DayClock.cfg", "workers": 6},
+                            {"module": "MC_LunarLookup", "cfg": "MC_LunarLookup_big.cfg", "workers": 6}]},
         "rule": "civil day walks (boundary catalogue incl. both reform periods + 30 seeded windows; thorough: all 3,652,061 days) logging the lunar date, both round trips, LunarDay::next(+-1), before/after/== against the previous day; "
                 "lunar-side enumeration of every day 0..31 of every month of sampled (quick) / all (thorough) lunar years; ordered pairs from neighbouring months incl. leap twins. "
                 "Non-trivial: month roll-overs, leap-month days, pairs with a leap month or across years",
